@@ -188,6 +188,12 @@ pub enum AnyOwning {
     A0(OwningAddr<Probe<0>>),
     A1(OwningAddr<Probe<1>>),
 }
+pub enum Exported {
+    WeakAddr(AnyWeak),
+    WeakSender(hannibal::WeakSender<Cast>),
+    WeakCaller(hannibal::WeakCaller<Ask>),
+}
+
 pub enum AnyWeak {
     A0(WeakAddr<Probe<0>>),
     A1(WeakAddr<Probe<1>>),
@@ -266,6 +272,14 @@ impl<const K: u8> Probe<K> {
             began: self.began.clone(),
             done: self.done.clone(),
             stopped_calls: self.stopped_calls,
+        }
+    }
+
+    fn wrap_weak(w: WeakAddr<Self>) -> AnyWeak {
+        let b: Box<dyn std::any::Any> = Box::new(w);
+        match b.downcast::<WeakAddr<Probe<0>>>() {
+            Ok(x) => AnyWeak::A0(*x),
+            Err(b) => AnyWeak::A1(*b.downcast::<WeakAddr<Probe<1>>>().expect("probe kind")),
         }
     }
 
@@ -408,6 +422,17 @@ impl<const K: u8> Probe<K> {
                 let got = addr.identify().await;
                 log(EvKind::Lookup { actor, kind: *kind, got: got.clone() });
                 log(EvKind::OpEnd { client: 100 + actor, op: 800 + *kind as usize, res: OpRes::Reg(RegRes::Got(got)), polls: 0 });
+            }
+            Step::ExportWeak(kind) => {
+                let e = match kind {
+                    HKind::WeakAddr => ctx.weak_address().map(|w| Exported::WeakAddr(Self::wrap_weak(w))),
+                    HKind::WeakSender => Some(Exported::WeakSender(ctx.weak_sender::<Cast>())),
+                    HKind::WeakCaller => Some(Exported::WeakCaller(ctx.weak_caller::<Ask, _>())),
+                    _ => None,
+                };
+                if let Some(e) = e {
+                    with_case(|c| c.exported.borrow_mut().push((actor, e)));
+                }
             }
             Step::Panic => std::panic::panic_any(InjectedPanic),
         }
@@ -674,10 +699,14 @@ pub fn spawn_slot(slot: Slot) -> Spawned {
 }
 
 pub trait Wrap: Sized + Actor {
+    fn weak(a: WeakAddr<Self>) -> AnyWeak;
     fn addr(a: Addr<Self>) -> AnyAddr;
     fn owning(a: OwningAddr<Self>) -> AnyOwning;
 }
 impl Wrap for Probe<0> {
+    fn weak(a: WeakAddr<Self>) -> AnyWeak {
+        AnyWeak::A0(a)
+    }
     fn addr(a: Addr<Self>) -> AnyAddr {
         AnyAddr::A0(a)
     }
@@ -686,6 +715,9 @@ impl Wrap for Probe<0> {
     }
 }
 impl Wrap for Probe<1> {
+    fn weak(a: WeakAddr<Self>) -> AnyWeak {
+        AnyWeak::A1(a)
+    }
     fn addr(a: Addr<Self>) -> AnyAddr {
         AnyAddr::A1(a)
     }
